@@ -23,6 +23,13 @@ def prank : PPc → Nat
   | .startStream => 15 | .write => 14 | .finAcq => 13 | .closeStream => 12 | .tfAcq => 11
   | .tfRel => 10 | .finRel => 9 | .done => 0
 
+theorem playChunks_length_le (cs : Nat) (a : List Int) (f : Bool) :
+    (playChunks cs a f).length ≤ (chunksOf cs a).length := by
+  unfold playChunks
+  split
+  · exact List.length_take_le' _ _
+  · exact Nat.le_refl _
+
 /-- rank of one player: a loop round consumes one chunk -/
 def pm (p : Player) : Nat := p.todo.length * 8 + prank p.pc
 
@@ -36,7 +43,7 @@ theorem stepPlayer_shape (cfg : Cfg) (s s' : State) (i : Nat) (h : stepPlayer cf
   · cases h
   · rename_i p hp
     simp only at h
-    cases hpcv : p.pc <;> simp only [hpcv] at h <;> (try split at h) <;> (try cases h) <;>
+    cases hpcv : p.pc <;> simp only [hpcv] at h <;> (try split at h) <;> (try cases h) <;> (try split at h) <;> (try cases h) <;>
       (refine ⟨p, _, hp, rfl, rfl, rfl, by simp [hpcv], ?_, ?_⟩) <;>
       (rcases loopHead_cases p with ⟨ht, hl⟩ | ⟨ht, hl⟩) <;>
       (try split) <;> simp_all [pm, prank] <;> omega
@@ -101,7 +108,7 @@ theorem th_stepPlayer (cfg : Cfg) (s s' : State) (i : Nat) (h : stepPlayer cfg s
       intro hin
       exact absurd hin (List.Nodup.not_mem_erase n1)
     · cases hpcv : p.pc <;> simp only [hpcv] at h <;> (try exact absurd hpcv htf) <;>
-        (try split at h) <;> (try cases h) <;>
+        (try split at h) <;> (try cases h) <;> (try split at h) <;> (try cases h) <;>
       (refine ⟨by simpa [setP] using n1, ?_⟩
        simp only [setP]
        refine live_set n2 hp (fun _ h => h) ?_
@@ -436,6 +443,8 @@ theorem phi_stepMain (cfg : Cfg) (s s' : State) (h : stepMain cfg s = some s')
     · cases h
       unfold phi mrank
       simp only [hm, mrankAux, psum_append, pm, prank]
+      rename_i audio _ _
+      have := playChunks_length_le a audio (cfg.fails.getD s.players.length false)
       omega
   case pRaiseRel =>
     cases h; exact phi_main_next _ rfl rfl (by simp [mrank, hm, mrankAux])
